@@ -34,6 +34,4 @@ pub fn vx_rev<I: DoubleEndedIterator>(it: I) -> (r: core::iter::Rev<I>)
 pub assume_specification<T> [core::iter::empty::<T>] () -> (r: core::iter::Empty<T>)
     ensures r.remaining().len() == 0;
 
-pub assume_specification<T, U, F: FnOnce(T) -> U> [Option::<T>::map_or] (o: Option<T>, default: U, f: F) -> (r: U)
-    requires o matches Some(x) ==> f.requires((x,))
-    ensures match o { Some(x) => f.ensures((x,), r), None => r == default };
+// (Option::map_or is specified in prelude/std_ext.rs)
